@@ -49,10 +49,16 @@ pub mod mpsc {
     impl<T> UnboundedReceiver<T> {
         pub uninterp spec fn chan(&self) -> int;
         pub uninterp spec fn next_answer(&self) -> Poll<Option<T>>;
+        /// every sender is gone (says nothing about messages still queued)
+        pub uninterp spec fn all_senders_dropped(&self) -> bool;
         #[verifier::external_body]
         pub fn poll_recv(&mut self, cx: &mut TaskCx) -> (r: Poll<Option<T>>)
             ensures r == old(self).next_answer(), final(self).chan() == old(self).chan()
         { unimplemented!() }
+        #[verifier::external_body]
+        pub fn is_closed(&self) -> (b: bool) ensures b == self.all_senders_dropped() { unimplemented!() }
+        #[verifier::external_body]
+        pub fn is_empty(&self) -> (b: bool) ensures b ==> !(self.next_answer() matches Poll::Ready(Some(_))) { unimplemented!() }
     }
     /// a fresh queue: the two ends share `chan()`, nothing sent yet
     #[verifier::external_body]
